@@ -498,9 +498,26 @@ func (p *Program) sliceBoundedByLimit(buf ssa.Value, at ssa.Instruction) (bool, 
 func (p *Program) readFromBounded(c ssa.CallInstruction, in ssa.Instruction, reach map[*ssa.Function]reachInfo) (bool, string) {
 	// (a) reader argument
 	limited := false
+	// a cap of exactly the limit turns "too large" into "cut to the limit": the Len() > limit refusal that follows
+	// can only fire if the reader lets at least one byte more than the limit through (limit + k, k >= 1)
+	cutAtLimit := false
 	for _, o := range p.origins(c.Common().Args[1], defaultOrigin) {
 		if lc, ok := o.(*ssa.Call); ok && calleeName(lc) == "io.LimitReader" && p.limitKind(lc.Call.Args[1]) != "" {
 			limited = true
+			plus := false
+			for _, bo := range p.origins(lc.Call.Args[1], defaultOrigin) {
+				if add, ok := bo.(*ssa.BinOp); ok && add.Op == token.ADD {
+					if k, isC := constInt(add.Y); isC && k >= 1 {
+						plus = true
+					}
+					if k, isC := constInt(add.X); isC && k >= 1 {
+						plus = true
+					}
+				}
+			}
+			if !plus {
+				cutAtLimit = true
+			}
 		}
 		if mi, ok := o.(*ssa.MakeInterface); ok {
 			_ = mi
@@ -516,6 +533,8 @@ func (p *Program) readFromBounded(c ssa.CallInstruction, in ssa.Instruction, rea
 	buf := c.Common().Args[0]
 	checked := p.bufferLenChecked(buf, in.Parent(), reach)
 	switch {
+	case limited && cutAtLimit:
+		return false, "the reader is capped at exactly the receive limit (io.LimitReader(r, limit), not limit+1): a message that inflates past the limit is cut to the limit and delivered, the length check behind it can never fire"
 	case limited && checked:
 		return true, "reader is an io.LimitReader over a limit-derived bound and the buffer length is checked against the limit before use"
 	case checked:
